@@ -78,8 +78,8 @@ class RunCtx:
         self.components = {}
         self.extra = {}
 
-    def stream(self, label):
-        return self.choices.stream(label)
+    def stream(self, label, exhaust='zero'):
+        return self.choices.stream(label, exhaust)
 
     def fault(self, kind, n=1):
         self.faults[kind] = self.faults.get(kind, 0) + n
@@ -91,12 +91,31 @@ class RunCtx:
         raise Violation(prop, oracle, signature, detail)
 
 
-def execute(scenario, seed, tier='quick', replay=None, prop=None, params=None, want_choices=False, want_trace=False):
+class RunTimeout(BaseException):
+    pass
+
+
+def _alarm(_sig, _frm):
+    raise RunTimeout()
+
+
+def execute(scenario, seed, tier='quick', replay=None, prop=None, params=None, want_choices=False, want_trace=False,
+            wall_limit=None):
     """one run -> plain dict result (picklable)."""
+    import signal
+    import threading
     ctx = RunCtx(seed, tier, replay, prop, params)
     res = {'seed': seed, 'status': 'ok'}
+    limit = wall_limit if wall_limit is not None else getattr(scenario, 'WALL_LIMIT', 300)
+    use_alarm = threading.current_thread() is threading.main_thread()
+    if use_alarm:
+        old = signal.signal(signal.SIGALRM, _alarm)
+        signal.setitimer(signal.ITIMER_REAL, limit)
     try:
         scenario.run(ctx)
+    except RunTimeout:
+        res['status'] = 'error'
+        res['error'] = f'run exceeded the wall-clock limit of {limit} s (harness guard)'
     except Violation as v:
         res['status'] = 'violation'
         res['violation'] = {'property': v.prop, 'oracle': v.oracle, 'signature': v.signature, 'detail': v.detail}
@@ -105,6 +124,10 @@ def execute(scenario, seed, tier='quick', replay=None, prop=None, params=None, w
             raise
         res['status'] = 'error'
         res['error'] = ''.join(traceback.format_exception(type(e), e, e.__traceback__))[-6000:]
+    finally:
+        if use_alarm:
+            signal.setitimer(signal.ITIMER_REAL, 0)
+            signal.signal(signal.SIGALRM, old)
     res['digest'] = ctx.log.digest()
     res['fingerprint'] = ctx.log.fingerprint()
     res['n_events'] = len(ctx.log.events)
